@@ -497,6 +497,9 @@ def replay(path):
     if "counts" in it:
         it["counts"] = [list(p) for p in it["counts"]]
     c = EXEC[it["fn"]](it)
+    if c.get("not_judged"):
+        print("C14 replay: the call did not return within %s s this time - not judged" % it.get("patience_s"))
+        return 0
     batch = [c]
     if c.get("hasseed"):                      # SeedFunctional needs the call twice (from another state of the global generators)
         batch.append(EXEC[it["fn"]](dict(it, py_seed=it["py_seed"] + 1, np_seed=it["np_seed"] + 1)))
